@@ -1,4 +1,5 @@
 import PytaskProofs.Lemmas.EngineReport
+import PytaskProofs.Lemmas.EngineExit
 import PytaskModel.BuildTop
 /-!
 # C08 — reported outcomes and exit codes are truthful; build() always returns
@@ -237,5 +238,161 @@ theorem C08_returns {w : World} {picks : List Nat} {fl : Faults} {r : TopResult}
         obtain ⟨code, hcode, _⟩ := ladderFind_exn c
         simp only [hx, hcode, hu] at hb
         split at hb <;> (simp only [Except.ok.injEq] at hb; subst hb; rfl)
+
+/-- No fault injected anywhere. -/
+def NoFaults (fl : Faults) : Prop :=
+  fl.configure = none ∧ (∀ ph, fl.phase ph = none) ∧ fl.unconfigure = none
+
+/-- **C08_top_is_build.** Without phase faults `build()` is the engine's `build`: same exit code,
+reports, body log and world; it returns, and `pytask_unconfigure` is called. All engine-level
+theorems (C01, C04, C08_one_report … C08_fail_iff) therefore speak about what `build()` returns. -/
+theorem C08_top_is_build {w : World} {picks : List Nat} {fl : Faults} {r0 : Result}
+    (hf : NoFaults fl) (hdag : createDag P cfg = .ok (g, marks)) (hb : build F P cfg w picks = .ok r0) :
+    ∃ r, buildTop F P cfg w picks fl = .ok r ∧ r.raised = false ∧ r.configured = true ∧ r.unconfigured = true ∧
+      r.exit = r0.exit ∧ r.reports = r0.reports ∧ r.log = r0.log ∧ r.w = r0.w := by
+  obtain ⟨hc, hp, hu⟩ := hf
+  obtain ⟨so, hso⟩ := fromDag_ok_of_createDag hdag (prioFn P)
+  unfold build at hb
+  rw [hdag] at hb
+  simp only [hso] at hb
+  unfold buildTop
+  simp only [hc, Generated.buildPhases, List.foldl, runPhase, hp, Option.isSome_none, Bool.or_self, Bool.false_eq_true,
+    reduceIte, String.reduceBEq, hdag, hso]
+  cases hl : buildLoop F P g cfg so { w := w, skipMarks := marks } picks with
+  | error e => rw [hl] at hb; cases hb
+  | ok pr =>
+    obtain ⟨so', s⟩ := pr
+    rw [hl] at hb
+    simp only [Except.ok.injEq] at hb
+    subst hb
+    have h1 : ladderCode "Exception" = 1 := by decide
+    have h2 : ladderCode "ExecutionError" = 1 := by decide
+    have h3 : exitCode "OK" = 0 := by decide
+    by_cases hcr : s.crashed = true
+    · have : ladderFind Generated.buildLadder (.exn "Exception") = some "FAILED" := by decide
+      simp [hcr, hu, this, Generated.unconfigureAfterLadder, h1]
+      decide
+    · by_cases hfl : (s.reports.any fun r => r.2 == Outcome.fail) = true
+      · have : ladderFind Generated.buildLadder (.exn "ExecutionError") = some "FAILED" := by decide
+        simp [hcr, hfl, hu, this, Generated.unconfigureAfterLadder, h2]
+        decide
+      · simp [hcr, hfl, hu, Generated.unconfigureAfterLadder, h3]
+
+/-- **C08_exit** (execution phase). Without phase faults the exit code is 0 or 1; it is 1 whenever
+some task is reported FAIL, and 0 only if none is (0 iff nothing failed, the code of the execution
+phase otherwise). -/
+theorem C08_exit_execute {w : World} {picks : List Nat} {r0 : Result}
+    (hdag : createDag P cfg = .ok (g, marks)) (hb : build F P cfg w picks = .ok r0) :
+    r0.exit ≤ 1 ∧ ((∃ t, (t, Outcome.fail) ∈ r0.reports) → r0.exit = 1) ∧
+    (r0.exit = 0 → ∀ t, (t, Outcome.fail) ∉ r0.reports) := by
+  have h1 : ladderCode "Exception" = 1 := by decide
+  have h2 : ladderCode "ExecutionError" = 1 := by decide
+  have h3 : exitCode "OK" = 0 := by decide
+  have hex : (∃ t, (t, Outcome.fail) ∈ r0.reports) → r0.exit = 1 := fun ⟨t, ht⟩ => C04_exit' hdag hb ht
+  refine ⟨?_, hex, ?_⟩
+  · rcases build_run hdag hb with ⟨so, so', s', hso, hrun, hr, _, _, _, he⟩ | ⟨_, _, _, he⟩
+    · rw [he]; split <;> (try split) <;> omega
+    · rw [he, h1]; omega
+  · intro h0 t ht
+    have := hex ⟨t, ht⟩
+    omega
+
+/-- **C08_exit** (configuration phase). Any ordinary exception while the configuration is parsed gives
+exit code 2 (`CONFIGURATION_FAILED`); nothing is collected or executed, the world is untouched. -/
+theorem C08_exit_config {w : World} {picks : List Nat} {fl : Faults} {r : TopResult} {c : String}
+    (hc : fl.configure = some (.exn c)) (hb : buildTop F P cfg w picks fl = .ok r) :
+    r.raised = false ∧ r.exit = 2 ∧ r.reports = [] ∧ r.log = [] ∧ r.w = w := by
+  unfold buildTop at hb
+  have : handles Generated.configHandler (.exn c) = true := handles_exception _ c (by decide)
+  simp only [hc, this, if_true, Except.ok.injEq] at hb
+  subst hb
+  exact ⟨rfl, (by decide : exitCode Generated.configFailCode = 2), rfl, rfl, rfl⟩
+
+/-- **C08_exit** (collection phase). A module that cannot be imported (syntax error, import error, any
+exception at import) yields a failed collection report, `pytask_collect_log` raises `CollectionError`:
+exit code 3 (`COLLECTION_FAILED`); no task is executed. -/
+theorem C08_exit_collect {w : World} {picks : List Nat} {fl : Faults} {r : TopResult}
+    (hc : fl.configure = none) (hh : fl.phase "header" = none)
+    (hcol : fl.phase "collect" = some (.exn Generated.collectLogRaises)) (hu : fl.unconfigure = none)
+    (hb : buildTop F P cfg w picks fl = .ok r) :
+    r.raised = false ∧ r.exit = 3 ∧ r.unconfigured = true ∧ r.reports = [] ∧ r.log = [] ∧ r.w = w := by
+  unfold buildTop at hb
+  have hl : ladderFind Generated.buildLadder (.exn "CollectionError") = some "COLLECTION_FAILED" := by decide
+  simp only [hc, Generated.buildPhases, List.foldl, runPhase, hh, hcol, Generated.collectLogRaises, Option.isSome_none,
+    Option.isSome_some, Bool.or_self, Bool.false_eq_true, Bool.true_or, reduceIte, String.reduceBEq, hl, hu,
+    Generated.unconfigureAfterLadder, Bool.not_true, Bool.or_false, Except.ok.injEq] at hb
+  subst hb
+  exact ⟨rfl, (by decide : exitCode "COLLECTION_FAILED" = 3), rfl, rfl, rfl, rfl⟩
+
+/-- **C08_exit** (graph phase). An exception inside `create_dag` (unparsable `-k` / `-m` / `after`
+expression — any class, `create_dag` re-raises it as `ResolvingDependenciesError`), a cycle or a
+product declared by two tasks give exit code 4 (`DAG_FAILED`); no task is executed. -/
+theorem C08_exit_dag {w : World} {picks : List Nat} {fl : Faults} {r : TopResult}
+    (hc : fl.configure = none) (hh : fl.phase "header" = none) (hcol : fl.phase "collect" = none)
+    (hd : (∃ c, fl.phase "dag" = some (.exn c)) ∨ (fl.phase "dag" = none ∧ ∃ e, createDag P cfg = .error e))
+    (hu : fl.unconfigure = none) (hb : buildTop F P cfg w picks fl = .ok r) :
+    r.raised = false ∧ r.exit = 4 ∧ r.unconfigured = true ∧ r.reports = [] ∧ r.log = [] ∧ r.w = w := by
+  unfold buildTop at hb
+  have hl : ladderFind Generated.buildLadder (.exn "ResolvingDependenciesError") = some "DAG_FAILED" := by decide
+  rcases hd with ⟨c, hd⟩ | ⟨hd, e, he⟩
+  · simp only [hc, Generated.buildPhases, List.foldl, runPhase, hh, hcol, hd, dagExc, Generated.dagWrapsException,
+      Option.isSome_none, Option.isSome_some, Bool.or_self, Bool.false_eq_true, Bool.true_or, reduceIte, String.reduceBEq,
+      hl, hu, Generated.unconfigureAfterLadder, Bool.not_true, Bool.or_false, Except.ok.injEq] at hb
+    subst hb
+    exact ⟨rfl, (by decide : exitCode "DAG_FAILED" = 4), rfl, rfl, rfl, rfl⟩
+  · simp only [hc, Generated.buildPhases, List.foldl, runPhase, hh, hcol, hd, he, dagExc, Generated.dagWrapsException,
+      Option.isSome_none, Option.isSome_some, Bool.or_self, Bool.false_eq_true, Bool.true_or, reduceIte, String.reduceBEq,
+      hl, hu, Generated.unconfigureAfterLadder, Bool.not_true, Bool.or_false, Except.ok.injEq] at hb
+    subst hb
+    exact ⟨rfl, (by decide : exitCode "DAG_FAILED" = 4), rfl, rfl, rfl, rfl⟩
+
+/-- The full-strength claim "`build()` returns for *every* exception raised by user code in any phase"
+is **false of the current code**: an exception that is not an `Exception` subclass — `SystemExit` from a
+task module that calls `sys.exit()` while it is imported — is caught by no handler of the ladder and
+escapes (finding F28; for task *bodies* the protocol catches `SystemExit` since the F15 fix, see
+`Generated.protocolCatches`). -/
+def C08_returns_full : Prop :=
+  ∀ (F : BodyFn) (P : Project) (cfg : Cfg) (w : World) (picks : List Nat) (fl : Faults) (r : TopResult),
+    fl.unconfigure = none → buildTop F P cfg w picks fl = .ok r → r.raised = false
+
+theorem C08_returns_full_false : ¬ C08_returns_full := by
+  intro h
+  have := h (fun _ _ _ _ => 0) ⟨[]⟩ {} ⟨[], []⟩ []
+    { phase := fun n => if n == "collect" then some .base else none } _ rfl rfl
+  revert this
+  decide
+
+/-! ## Non-vacuity -/
+
+def c08P : Project := ⟨[
+  { id := 0, src := 90, deps := [10], prods := [20], after := [], beh := .saveFails },
+  { id := 1, src := 90, deps := [20], prods := [21], after := [] },
+  { id := 2, src := 90, deps := [10], prods := [22], after := [] },
+  { id := 3, src := 90, deps := [11], prods := [23], after := [] }]⟩
+def c08W : World := ⟨[(10, 5), (90, 7)], []⟩
+def c08F : BodyFn := fun t i _ _ => t * 10 + i
+
+/-- One build exhibiting every clause: task 0 FAIL (its product node's `save` raises after the function
+ran), its dependant 1 skipped, task 2 SUCCESS (logged once, product exists), task 3 FAIL because its
+dependency 11 is missing (never logged); exit code 1; one report per task. -/
+example : ∃ r g marks, createDag c08P {} = .ok (g, marks) ∧ build c08F c08P {} c08W [0, 2, 3, 1] = .ok r ∧
+    r.reports = [(0, .fail), (2, .success), (3, .fail), (1, .skipPrevFailed)] ∧ r.log = [0, 2] ∧
+    lookup r.w.fs 22 = some 20 ∧ lookup r.w.fs 20 = none ∧ r.exit = 1 ∧ r.complete = true := by
+  refine ⟨_, _, _, rfl, rfl, ?_⟩
+  decide
+
+/-- Phase faults: a collection error (exit 3), an unparsable expression in the graph phase (exit 4), a
+configuration error (exit 2, no unconfigure), and two faults at once (the earlier phase wins). -/
+example :
+    ((buildTop c08F c08P {} c08W [] { phase := fun n => if n == "collect" then some (.exn "CollectionError") else none }).toOption.map
+        (fun r => (r.raised, r.exit, r.unconfigured))) = some (false, 3, true) ∧
+    ((buildTop c08F c08P {} c08W [] { phase := fun n => if n == "dag" then some (.exn "ValueError") else none }).toOption.map
+        (fun r => (r.raised, r.exit, r.unconfigured))) = some (false, 4, true) ∧
+    ((buildTop c08F c08P {} c08W [] { configure := some (.exn "ValueError") }).toOption.map
+        (fun r => (r.raised, r.exit, r.unconfigured))) = some (false, 2, false) ∧
+    ((buildTop c08F c08P {} c08W [] { phase := fun n => if n == "collect" then some (.exn "CollectionError")
+                                                        else if n == "dag" then some (.exn "ValueError") else none }).toOption.map
+        (fun r => (r.raised, r.exit, r.unconfigured))) = some (false, 3, true) := by
+  decide
 
 end Pytask
